@@ -28,6 +28,7 @@ const period = 3600 * time.Second
 type c18Params struct {
 	N, U, Kevt, Ksr int
 	Q               int    // bufburst: scaled capacity of the per-PDR buffer queue
+	Lat             bool   // every data-plane (netlink) call is a scheduling point: calls of arbitrary latency
 	Bulk            string // "reassoc", "delete", "establish"
 	M               int    // sessions in the kernel report batch (0: none)
 	HB              bool   // a Heartbeat Request from peer B is in flight as well
@@ -37,6 +38,9 @@ type c18Params struct {
 func (p c18Params) String() string {
 	if p.Bulk == "bufburst" {
 		return fmt.Sprintf("N=%d U=%d Ksr=%d bulk=bufburst packets=%d Qbuf=%d hb=%v ticks=%d", p.N, p.U, p.Ksr, p.M, p.Q, p.HB, p.Ticks)
+	}
+	if p.Lat {
+		return fmt.Sprintf("N=%d U=%d Kevt=%d Ksr=%d bulk=%s batch=%d hb=%v ticks=%d data-plane-latency=any", p.N, p.U, p.Kevt, p.Ksr, p.Bulk, p.M, p.HB, p.Ticks)
 	}
 	if p.Kevt == 0 {
 		return fmt.Sprintf("N=%d U=%d Kevt=512(real) Ksr=128(real) bulk=%s batch=%d hb=%v ticks=%d", p.N, p.U, p.Bulk, p.M, p.HB, p.Ticks)
@@ -86,6 +90,9 @@ func c18Body(p c18Params) func(x *vsched.Exec) {
 		}
 		if p.Kevt > 0 {
 			vsched.SetCap(w.g.VPerio().VEvtCh(), p.Kevt) // 0: the real capacity (true-scale instance)
+		}
+		if p.Lat {
+			w.k.OnRequest = vsched.Yield
 		}
 		// the concurrent phase
 		switch p.Bulk {
@@ -207,7 +214,12 @@ func c18Scenarios(tier string) []struct {
 	out = append(out, sc{c18Params{N: 2, U: 2, Kevt: 1, Ksr: 1, Bulk: "reassoc", Ticks: 2}, 2, 6000})
 	out = append(out, sc{c18Params{N: 2, U: 1, Kevt: 2, Ksr: 1, Bulk: "reassoc", M: 2, HB: true, Ticks: 1}, 1, 3000})
 	out = append(out, sc{c18Params{N: 1, U: 1, Kevt: 2, Ksr: 1, Bulk: "bufburst", M: 4, Q: 2, HB: true}, 2, 6000})
+	out = append(out, sc{c18Params{N: 2, U: 1, Kevt: 1, Ksr: 1, Bulk: "reassoc", Ticks: 1, Lat: true}, 1, 6000})
 	if tier == "thorough" {
+		for _, bulk := range []string{"reassoc", "delete", "establish"} {
+			out = append(out, sc{c18Params{N: 2, U: 1, Kevt: 1, Ksr: 1, Bulk: bulk, Ticks: 1, HB: true, Lat: true}, 2, 60000})
+			out = append(out, sc{c18Params{N: 3, U: 2, Kevt: 2, Ksr: 2, Bulk: bulk, M: 2, Ticks: 1, Lat: true}, 1, 60000})
+		}
 		for _, q := range []int{1, 2, 3} {
 			out = append(out, sc{c18Params{N: 2, U: 1, Kevt: 2, Ksr: q, Bulk: "bufburst", M: q + 3, Q: q, HB: true, Ticks: 1}, 3, 60000})
 		}
